@@ -398,7 +398,7 @@ pub fn check_reload(c: &ReloadCase) -> Outcome {
 
 pub fn run(ctx: &Ctx, rep: &mut Report) {
     rep.rule = "matrix {server leaf issued by the trusted CA / another CA / self-signed} x {requested name is a SAN / differs / SAN in other letter case} x {skip-verify on/off} x {client certificate none / under the client CA / under another CA} x {server client-CA configured / not} enumerated COMPLETELY (108 combinations) x 3 key algorithms in every run with fresh rcgen PKIs, \
-                plus random cases with generated SAN lists (incl. wildcards and several names); stateful part: generated sequences of {connect with no client certificate / one under the current client CA / under a foreign CA / under the client CA that was replaced, use an open connection, reload identity, reload identity with a new client CA}, with and without a client CA on the server, clients building a fresh TLS configuration per connection or keeping one (with its session cache) for all their connections. Oracle: decision table of the statement; success = both handshakes complete and one byte is echoed each way; no client certificate is requested without a client CA; \
+                plus random cases with generated SAN lists (incl. wildcards and several names); stateful part: generated sequences of {connect with no client certificate / one under the current client CA / under a foreign CA / under the client CA that was replaced, use an open connection, reload identity, reload identity with a new client CA}, with and without a client CA on the server, clients building a fresh TLS configuration per connection or keeping one (with its session cache) for all their connections; plus one scenario through the real server_main and its SIGUSR1 handler (good rotation, failed rotation, completed rotation with a new client CA). Oracle: decision table of the statement; success = both handshakes complete and one byte is echoed each way; no client certificate is requested without a client CA; \
                 after reload every new handshake presents the new leaf, is still authenticated as configured (client CA), and every established connection still echoes. Non-trivial = a case whose expected outcome is failure, or a reload with a live connection. Distinct = distinct case value."
         .into();
     rep.assumptions = vec![
@@ -451,4 +451,147 @@ pub fn run(ctx: &Ctx, rep: &mut Report) {
         },
         check_reload,
     );
+    // the operator's path: SIGUSR1 to a real server_main (one scenario; the signal is process-wide, so it runs on its own)
+    ctx.enumerate(rep, "reload-via-signal", 2, 2, |i| i as u8, check_signal_reload);
+}
+
+
+// ------------------------------------------------------------------ reload through the real server and its SIGUSR1 handler
+
+/// One real `server_main` with a TLS identity (and a client CA), reloaded by SIGUSR1 as an operator would: a good rotation, a
+/// rotation interrupted half-way (unreadable key: the reload fails, the old identity stays), and a good rotation again that
+/// also replaces the client CA. After every step new handshakes must see exactly the identity on disk at the last *successful*
+/// reload and be authenticated under the client CA of that reload.
+pub fn check_signal_reload(_c: &u8) -> Outcome {
+    use rusty_penguin_lib::arg::ServerArgs;
+    let files = Files::new();
+    let ca = make_ca("trusted ca", 0);
+    let ca_path = files.write("ca.pem", &ca.pem);
+    let sans = vec!["reload.test".to_string()];
+    let client_cas: Vec<Ca> = (0..2).map(|g| make_ca(&format!("client ca {g}"), 0)).collect();
+    let client_paths: Vec<(String, String)> = client_cas
+        .iter()
+        .enumerate()
+        .map(|(g, cca)| {
+            let l = make_leaf(&["client.test".into()], "client", Some(cca), 0, true);
+            (files.write(&format!("client{g}.pem"), &l.0), files.write(&format!("client{g}.key"), &l.1))
+        })
+        .collect();
+    let leaf = |g: u32| make_leaf(&sans, &format!("signal leaf {g}"), Some(&ca), 0, false);
+    let l0 = leaf(0);
+    let cert_path = files.write("cert.pem", &l0.0);
+    let key_path = files.write("privkey.pem", &l0.1);
+    let cca_path = files.write("clientca.pem", &client_cas[0].pem);
+    let port = rt().block_on(async { tokio::net::TcpListener::bind("127.0.0.1:0").await.unwrap().local_addr().unwrap().port() });
+    let args: &'static ServerArgs = Box::leak(Box::new(ServerArgs {
+        host: vec!["127.0.0.1".to_string()],
+        port: vec![port],
+        not_found_resp: "nf".to_string(),
+        tls_cert: Some(cert_path.clone()),
+        tls_key: Some(key_path.clone()),
+        tls_ca: Some(cca_path.clone()),
+        ..Default::default()
+    }));
+    let r: Result<(), (String, String)> = rt().block_on(async {
+        let server = tokio::spawn(rusty_penguin_lib::server::server_main(args));
+        // one handshake + one HTTP exchange; Ok(leaf der) or Err(reason)
+        let connect = |cpaths: Option<&(String, String)>| {
+            let ca_path = ca_path.clone();
+            let cp = cpaths.cloned();
+            async move {
+                let tcp = tokio::net::TcpStream::connect(("127.0.0.1", port)).await.map_err(|e| format!("tcp: {e}"))?;
+                let (cc, ck) = match &cp {
+                    Some((c, k)) => (Some(c.as_str()), Some(k.as_str())),
+                    None => (None, None),
+                };
+                let mut st = tls::tls_connect(tcp, "reload.test", cc, ck, Some(ca_path.as_str()), false).await.map_err(|e| format!("tls: {e}"))?;
+                st.write_all(b"GET /nothing HTTP/1.1\r\nHost: reload.test\r\nConnection: close\r\n\r\n").await.map_err(|e| format!("write: {e}"))?;
+                let mut b = [0u8; 12];
+                tokio::time::timeout(std::time::Duration::from_secs(10), st.read_exact(&mut b)).await.map_err(|_| "no HTTP answer".to_string())?.map_err(|e| format!("read: {e}"))?;
+                let der = match &st {
+                    tokio_rustls::TlsStream::Client(c) => c.get_ref().1.peer_certificates().and_then(|c| c.first()).map(|c| c.as_ref().to_vec()),
+                    _ => None,
+                };
+                der.ok_or_else(|| "no peer certificate".to_string())
+            }
+        };
+        // wait for the listener (the SIGUSR1 handler is registered before it binds)
+        let mut up = false;
+        for _ in 0..200 {
+            if connect(Some(&client_paths[0])).await.is_ok() {
+                up = true;
+                break;
+            }
+            tokio::time::sleep(std::time::Duration::from_millis(50)).await;
+        }
+        if !up {
+            server.abort();
+            return Err(("c17-signal-harness".to_string(), "the server did not come up".to_string()));
+        }
+        let usr1 = || async {
+            let ok = tokio::process::Command::new("kill").arg("-USR1").arg(std::process::id().to_string()).status().await.map(|s| s.success()).unwrap_or(false);
+            if ok { Ok(()) } else { Err(("c17-signal-harness".to_string(), "cannot send SIGUSR1".to_string())) }
+        };
+        // waits until a handshake presents `der` (reloads are asynchronous); false after 5 s
+        let wait_leaf = |der: Vec<u8>, cp: (String, String)| {
+            let connect = &connect;
+            async move {
+                for _ in 0..100 {
+                    if connect(Some(&cp)).await.ok().as_deref() == Some(der.as_slice()) {
+                        return true;
+                    }
+                    tokio::time::sleep(std::time::Duration::from_millis(50)).await;
+                }
+                false
+            }
+        };
+        let res: Result<(), (String, String)> = async {
+            if connect(Some(&client_paths[0])).await.map_err(|e| ("c17-signal-connect".to_string(), e))? != l0.2 {
+                return Err(("c17-signal-stale-identity".to_string(), "the initial handshake does not present the configured leaf".to_string()));
+            }
+            // 1. a good rotation
+            let l1 = leaf(1);
+            std::fs::write(&cert_path, &l1.0).unwrap();
+            std::fs::write(&key_path, &l1.1).unwrap();
+            usr1().await?;
+            if !wait_leaf(l1.2.clone(), client_paths[0].clone()).await {
+                return Err(("c17-signal-reload-not-applied".to_string(), "5 s after SIGUSR1 new handshakes still do not present the certificate that was put in place".to_string()));
+            }
+            // 2. a rotation caught half-way: the key file is unreadable, the reload fails, the running identity stays
+            std::fs::write(&key_path, "").unwrap();
+            usr1().await?;
+            tokio::time::sleep(std::time::Duration::from_millis(400)).await;
+            match connect(Some(&client_paths[0])).await {
+                Ok(d) if d == l1.2 => {}
+                Ok(_) => return Err(("c17-signal-stale-identity".to_string(), "after a failed reload a handshake presents something else than the last good identity".to_string())),
+                Err(e) => return Err(("c17-signal-reload-disturbs".to_string(), format!("after a failed reload new handshakes fail: {e}"))),
+            }
+            // 3. the rotation is completed, with a new client CA as well
+            let l2 = leaf(2);
+            std::fs::write(&cert_path, &l2.0).unwrap();
+            std::fs::write(&key_path, &l2.1).unwrap();
+            std::fs::write(&cca_path, &client_cas[1].pem).unwrap();
+            usr1().await?;
+            if !wait_leaf(l2.2.clone(), client_paths[1].clone()).await {
+                return Err((
+                    "c17-signal-reload-not-applied".to_string(),
+                    "a reload had failed (unreadable key); the files were then completed and SIGUSR1 sent again, but 5 s later new handshakes still do not see the new identity / client CA: reloading stopped working after the failure".to_string(),
+                ));
+            }
+            if connect(Some(&client_paths[0])).await.is_ok() {
+                return Err(("c17-reload-unauthenticated-client-accepted".to_string(), "after the client CA was replaced through SIGUSR1 a certificate under the replaced CA is still accepted".to_string()));
+            }
+            if connect(None).await.is_ok() {
+                return Err(("c17-reload-unauthenticated-client-accepted".to_string(), "a client without a certificate was accepted by a server with a client CA".to_string()));
+            }
+            Ok(())
+        }
+        .await;
+        server.abort();
+        res
+    });
+    match r {
+        Err((sig, msg)) => Outcome::violation(sig, msg),
+        Ok(()) => Outcome::pass(true, vec!["reload-via-sigusr1"]),
+    }
 }
